@@ -67,6 +67,20 @@ def probe(host: Optional[str], port: int, unix_path: Optional[str] = None) -> Tu
     return True, data
 
 
+def probe3(host: Optional[str], port: int, unix_path: Optional[str] = None) -> Tuple[bool, bytes]:
+    """probe(); an accepted connection that gets no answer within 30 s is tried twice more, one after the other, on the
+    otherwise idle instance.  Three silent probes in a row = b'<never answers>' (a verdict); fewer = b'<no answer ...>'
+    (slow machine: inconclusive)."""
+    ok, data = probe(host, port, unix_path)
+    if not (ok and data.startswith(b'<no answer')):
+        return ok, data
+    for _ in range(2):
+        ok2, data2 = probe(host, port, unix_path)
+        if not (ok2 and data2.startswith(b'<no answer')):
+            return ok, data          # it does answer: the first silence was the machine
+    return True, b'<never answers: 3 probes of 30 s each on an idle instance>'
+
+
 def server_closes_first(host: str, port: int) -> bool:
     """A conversation the proxy ends itself (rejected request): read to EOF, only then close."""
     s = socket.socket(socket.AF_INET6 if ':' in host else socket.AF_INET, socket.SOCK_STREAM)
@@ -240,7 +254,7 @@ def run_case(case: Dict[str, Any]) -> Dict[str, Any]:
         for (h, p) in sorted(fixed):
             if (h, p) not in bound:
                 bad('configured-endpoint-not-bound', endpoint=[h, p])
-            ok, data = probe(h, p)
+            ok, data = probe3(h, p)
             if ok and data.startswith(b'<no answer'):
                 inconclusive = 'probe-answer-watchdog'
             elif not ok or not data.startswith(b'HTTP/1.'):
@@ -250,14 +264,14 @@ def run_case(case: Dict[str, Any]) -> Dict[str, Any]:
             bad('number-of-listening-sockets-differs', expected=expected_n)
         discovered = bound - fixed
         for (h, p) in sorted(discovered):
-            ok, data = probe(h, p)
+            ok, data = probe3(h, p)
             if ok and data.startswith(b'<no answer'):
                 inconclusive = 'probe-answer-watchdog'
             elif not ok or not data.startswith(b'HTTP/1.'):
                 bad('os-assigned-endpoint-does-not-serve', endpoint=[h, p])
             obs['endpoints_probed'] = obs.get('endpoints_probed', 0) + 1
         if upath:
-            ok, data = probe(None, 0, upath)
+            ok, data = probe3(None, 0, upath)
             if ok and data.startswith(b'<no answer'):
                 inconclusive = 'probe-answer-watchdog'
             elif not ok or not data.startswith(b'HTTP/1.') or upath not in table['unix']:
